@@ -502,3 +502,26 @@ def inject_diamond(draw, spec):
     spec['rules'] = (new + spec['rules']) if pos == 0 else (spec['rules'] + new) if pos == 1 else (mid + spec['rules'] + [top])
     spec['start'] = 'S0'
     return True
+
+
+def inject_expanded_child(draw, spec):
+    """Mutates spec: a new start symbol S1(q,p,r) -> Y0(p,q) f0(r) where Y0(p,q) has a rule without edges touching its
+    external nodes (its value is a stride-0 expansion) and the parent lists p, q in the other order; nothing is summed out."""
+    labs = sorted(spec['node_labels'])
+    if not labs: return False
+    for n in ('S1', 'Y0', 'f0', 'c0'):
+        if n in spec['nonterminals'] or n in spec['terminals']: return False
+    A, B, C = draw(st.sampled_from(labs)), draw(st.sampled_from(labs)), draw(st.sampled_from(labs))
+    spec['nonterminals']['Y0'] = [A, B]
+    spec['nonterminals']['S1'] = [B, A, C]
+    spec['terminals']['f0'] = {'type': [C], 'weights': [draw(st.sampled_from((0.25, 0.5, 1.0, 2.0, 3.0))) for _ in range(spec['node_labels'][C])]}
+    yedges = []
+    if draw(st.booleans()):
+        spec['terminals']['c0'] = {'type': [], 'weights': draw(st.sampled_from((0.5, 2.0)))}
+        yedges = [{'label': 'c0', 'att': []}]
+    new = [{'lhs': 'S1', 'nodes': [B, A, C], 'ext': [0, 1, 2], 'edges': [{'label': 'Y0', 'att': [1, 0]}, {'label': 'f0', 'att': [2]}]},
+           {'lhs': 'Y0', 'nodes': [A, B], 'ext': [0, 1], 'edges': yedges}]
+    if draw(st.booleans()): new[0]['edges'].reverse()
+    spec['rules'] = spec['rules'] + new if draw(st.booleans()) else new + spec['rules']
+    spec['start'] = 'S1'
+    return True
